@@ -395,7 +395,12 @@ def main():
             if san:
                 for key, summ in classify_sanitizer(san[1])[:3]:
                     c.violation(key, summ, san[1])
+    import neighbour
+    nb = neighbour.run_neighbours(c, exe, True)
+    tot['evaluations'] = tot.get('evaluations', 0) + nb.get('evaluations', 0)
     c.coverage.update({
+        'two_field_sets': {'set_decodes_compared_with_the_fields_alone': int(nb.get('set_decodes', 0)), 'set_texts_encoded_back': int(nb.get('set_encodes', 0)),
+                           'second_field_x_predecessor_pairs': int(nb.get('neighbour_pairs', 0))},
         'evaluations': int(tot.get('evaluations', 0)),
         'distinct_nontrivial': min(int(tot.get('nontrivial', 0)), int(tot.get('distinct', 0))),
         'rule': 'random sequences of 2..11 field definitions over all base types (numeric, BCD/HCD/PIN, dates, times, STR/NTS/HEX/IGN with '
